@@ -2,7 +2,30 @@ HOOK_COMMITS = ["2717fa1"]
 
 NOT_YET = {}
 
+def _t(technique, level, note="Trusted: harness generators, reference models and comparison code. Coverage comes from workload diversity (seeded, boundary-biased), not enumeration; the claim is 'held on the executions listed in the evidence'."):
+    return {"technique": technique, "level": level, "note": note}
+
+
 TEXT = {
+    "C02": _t("differential runtime monitor over budgets (exhaustive per program when C<=4000) + guard hook events",
+              "Each generated program is executed by the real interpreter at budget 0 and then at budgets around its cost; soundness, identity of all succeeding budgets, upward closure, CostExceeded below the minimum and tightness (minimum == C unless a cost-exempt guard was entered) are asserted per program."),
+    "C03": _t("differential runtime monitor (baseline vs re-encoded atoms / pre-populated allocators / re-runs)",
+              "Each generated program is executed on a fresh allocator and again under re-encoded atom representations and prior allocator histories; result, cost and error must not change."),
+    "C06": _t("differential runtime monitor (F vs F|MALACHITE) on direct operator calls and programs",
+              "div/divmod/mod/modpow are called with generated argument lists under both bignum backends; results, costs and error kinds are compared."),
+    "C07": _t("differential runtime monitor with implication direction (F|R success => identical F success)",
+              "Each generated program is run with and without restriction flags; a restricted success must be reproduced exactly by the unrestricted run, and RELAXED_BLS must preserve successes."),
+    "C08": _t("differential runtime monitor (ChiaDialect vs extension-hiding dialect) + guard hook events",
+              "Each generated softfork-heavy program is run on the extension-aware dialect and on a harness dialect that hides extensions and the 4-byte secp opcodes; aware successes must be reproduced with identical result, cost and allocator counts."),
+    "C11": _t("differential runtime monitor (F vs F|NEW_COST_MODEL) on programs and direct operator calls",
+              "Programs and single operator calls are executed under both cost models; whenever both succeed the result trees must be identical."),
+    "C25": _t("totality monitor (catch_unwind, InternalError detector) under release, debug-assertion, AddressSanitizer and Miri builds",
+              "Hostile programs and arbitrary operator argument trees are executed under four build variants; any panic, abort, sanitizer report, dying process or InternalError is a violation.",
+              "Trusted: harness generators. ASan/Miri cannot see into blst (C/asm); Miri runs a small no-BLS subset. Hangs are inconclusive."),
+    "C30": _t("differential runtime monitor (ChiaDialect vs RuntimeDialect with the standard table)",
+              "Guard-free programs inside the common vocabulary are run on both dialects with the same flags; result, cost and error kind must agree."),
+    "C31": _t("online trace checker over GuardEnter/GuardExit hook events + LIMIT_SOFTFORK depth towers",
+              "Every run's guard events are checked with a stack of open guards: counts restored, nil result, exact declared cost unless exempt; towers of depth 1..25 decide the 20/21 boundary."),
     "C04": {
         "technique": "differential runtime monitor (F vs F|ENABLE_GC) + GC hook event log",
         "level": "Every generated program is executed by the real interpreter twice, with and without ENABLE_GC, on identically prepared "
